@@ -86,6 +86,24 @@ CLAIMED.update({
              'built-in and public member to tripwired objects; built-in callables are summarised, not modelled (partial).',
         technique='Coq proof (invariant over the evaluator\'s event log by induction on the RPN) + differential evaluation with tripwired objects'),
 })
+
+CLAIMED.update({
+    'C15': dict(
+        text='Theorems over a model of min_weight_bipartite_matching (type scan, min/max, replacement value for missing pairs, get_dtype '
+             'translated from source on every run, the cast, the final filter) with the solver as a section variable under the contract '
+             '"optimal full assignment on a dense matrix": on the stated domain the routine returns a pairing (C15_total) that is one-to-one, '
+             'uses only existing pairs and reports true weights (C15_valid), and with no missing pair has min(rows, cols) pairs of minimum '
+             'total (C15_opt, against a brute-force optimum proved minimal); an all-missing table gives the empty pairing; outside the domain '
+             'a table lies in exactly the three open finding classes (D14b negative weights with a missing pair -> AssertionError, D14c beyond '
+             '2^53 -> float64 rounding in scipy, D14d replacement value overflows the dtype), each with a refutation witness. The model is '
+             'tied to the code by outcome-exact correspondence on exhaustive tiny tables (against brute force) and sampled larger ones, which '
+             'is also where the solver contract is tested against scipy.',
+        design_ref='5.15',
+        note='Trusted: Coq kernel + VM; translator gen_match.py (get_dtype, INTEGER_DTYPE_INTERVALS); scipy.optimize.linear_sum_assignment '
+             'and numpy casts are oracles (contract tested, not proved); the wrapper is hand-modelled and tied by correspondence. Partial: the '
+             'solver is not verified.',
+        technique='Coq proof (wrapper + dtype + optimality specification, solver as a contracted section variable) + exhaustive/sampled correspondence against brute force'),
+})
 NOT_YET = 'model and theorem not completed yet (DESIGN.md section 7)'
 NA = {}
 
